@@ -38,4 +38,12 @@ extern "C" void vp_thr_qrw(queuing_rw_mutex* m, queuing_rw_mutex::scoped_lock* n
   } else vp_leave(tid, w);
   l.release();
 }
+#include "w_reuse.h"
+extern "C" void vp_thr_qrw_re(queuing_rw_mutex* m, queuing_rw_mutex::scoped_lock* node, int tid, int r1, int r2) {
+  queuing_rw_mutex::scoped_lock& l = *new (node) queuing_rw_mutex::scoped_lock;
+  vp_rw_cycle(l, m, tid, r1);
+  if (r2 != VP_NONE) { vp_cycle(tid); vp_rw_cycle(l, m, tid, r2); }
+  vp_done(tid);
+}
+extern "C" int vp_qrw_fresh(queuing_rw_mutex* m) { queuing_rw_mutex::scoped_lock l; bool ok = l.try_acquire(*m, true); if (ok) l.release(); return ok; }
 extern "C" unsigned long vp_qrw_word(queuing_rw_mutex* m) { return (unsigned long)m->q_tail.load(std::memory_order_relaxed); }
